@@ -178,9 +178,12 @@ def build_flow(sp):
 
 # ---------------------------------------------------------------------------------------------------------------
 # atoms that can be switched on and off independently on an HTTP flow: (op, arg, dimension, overrides making it true)
-def A(op, arg, dim, on, kind=None):
-    return {"op": op, "arg": arg, "dim": dim, "on": on,
-            "kind": kind or ("unary" if op in UNARY else "arg")}
+def A(op, arg, dim, on, kind=None, twin=None):
+    """twin = (regex that differs only in the white space inside it, overrides making THAT regex true)."""
+    a = {"op": op, "arg": arg, "dim": dim, "on": on, "kind": kind or ("unary" if op in UNARY else "arg")}
+    if twin:
+        a["twin"] = {"arg": twin[0], "on": twin[1]}
+    return a
 
 
 TABLE_ATOMS = [
@@ -210,7 +213,30 @@ TABLE_ATOMS = [
     A("dst", ":8443", "dst", {"dst": ["10.8.8.8", 8443]}),
     A("meta", "k1", "meta", {"meta": {"k1": "v"}}), A("meta", "^k1: v$", "meta", {"meta": {"k0": "w", "k1": "v"}}),
     A("comment", "note", "comment", {"comment": "a note"}), A("marker", "star", "marked", {"marked": ":star:"}),
+    # regexes with white space in them (always written in quotes) and their white-space twins
+    A("bq", "a b", "req_body", {"req_body": "xa bx"}, twin=("a  b", {"req_body": "xa  bx"})),
+    A("bs", "x y", "resp_body", {"resp_body": "x y"}, twin=("x    y", {"resp_body": "x    y"})),
+    A("hq", "x-req: one", "req_header", {"req_headers": [["X-Req", "one"]]},
+      twin=("x-req:  one", {"req_headers": [["X-Req", " one"]]})),
+    A("comment", "a note", "comment", {"comment": "a note"}, twin=("a   note", {"comment": "a   note"})),
+    A("meta", "k1: v", "meta", {"meta": {"k1": "v"}}, twin=("k1:  v", {"meta": {"k1": " v"}})),
+    A("b", "has needle1", "req_body", {"req_body": "has needle1 here"}, twin=("has   needle1", {"req_body": "has   needle1"})),
 ]
+TWIN_ATOMS = [a for a in TABLE_ATOMS if "twin" in a]
+AGAIN = ("respaced", "inner_space", "recased")
+
+
+def related_atoms(atoms, how):
+    """The atoms of the second text of a scenario."""
+    out = []
+    for a in atoms:
+        if how == "inner_space" and "twin" in a:
+            a = dict(a, arg=a["twin"]["arg"], on=a["twin"]["on"])
+        elif how == "recased" and a["kind"] == "arg" and isinstance(a["arg"], str) and re.fullmatch(r"[A-Za-z0-9 :./-]+", a["arg"]):
+            a = dict(a, arg=a["arg"].swapcase())
+        out.append(a)
+    return out
+
 NEEDS_RESP = {"resp_ctype", "resp_header", "resp_body", "code"}
 # atoms for the pool flows only (cannot be made false on an HTTP flow, or depend on each other)
 POOL_ATOMS = [A("http", None, "", {}), A("tcp", None, "", {}), A("udp", None, "", {}), A("dns", None, "", {}),
@@ -220,6 +246,9 @@ POOL_ATOMS = [A("http", None, "", {}), A("tcp", None, "", {}), A("udp", None, ""
               A("dst", ":53$", "", {}), A("comment", "^a note$", "", {}), A("m", "^post$", "", {}),
               A("hq", "x-req: one", "", {}), A("h", "two|srv", "", {}), A("hs", "^x-resp: two$", "", {}),
               A("hs", "^server", "", {})]
+# a literal TAB inside the quotes (random driver only): pyparsing expands tabs before it parses
+TAB_QUOTED = [dict(A("bs", "x\ty", "resp_body", {"resp_body": "x\ty"}), quote_anyway=True),
+              dict(A("comment", "a\tnote", "comment", {"comment": "a\tnote"}), quote_anyway=True)]
 # regex written in quotes although it contains a backslash escape (random driver only)
 QUOTED_BACKSLASH = [dict(x, quote_anyway=True) for x in [A("u", "al\\w+a", "url", {"path": "/x/alpha"}), A("hq", "x-req:\\s+one", "req_header", {"req_headers": [["X-Req", "one"]]}),
                     A("d", "example\\.com$", "host", {"host": "example.com"}), A("bq", "needle\\d", "req_body", {"req_body": "needle1"})]]
@@ -337,6 +366,8 @@ def ref_tokens(text):
                     continue
                 if text[j] == "\\":
                     raw_bs = True
+                if text[j] == "\t":
+                    raw_bs = raw_bs or "tab"
                 buf.append(text[j])
                 j += 1
             if j >= n:
@@ -378,7 +409,7 @@ def ref_parse(text, atoms):
         if t[0] in ("word", "str"):
             pos += 1
             if t[0] == "str" and t[3]:
-                flags.add("quoted_backslash")
+                flags.add("tab_in_quotes" if t[3] == "tab" else "quoted_backslash")
             return ["a", lookup("", t[1])]
         if t[0] != "op":
             raise RefError(f"operand expected at {t[2]}")
@@ -395,7 +426,7 @@ def ref_parse(text, atoms):
                 raise RefError(f"argument expected for ~{op}")
             pos += 1
             if arg[0] == "str" and arg[3]:
-                flags.add("quoted_backslash")
+                flags.add("tab_in_quotes" if arg[3] == "tab" else "quoted_backslash")
             if op in ("h", "hq", "hs") and re.search(r"(?<!\\)\$", arg[1]):
                 flags.add("header_end_anchor")
             return ["a", lookup(op, arg[1])]
@@ -454,7 +485,7 @@ def ref_parse(text, atoms):
 
 def features(flags):
     fparse = next((f for f in ("unary_before_rparen", "juxtaposition_in_group") if f in flags), "plain")
-    feval = next((f for f in ("quoted_backslash", "juxtaposition_beside_or", "header_end_anchor") if f in flags), "plain")
+    feval = next((f for f in ("quoted_backslash", "tab_in_quotes", "juxtaposition_beside_or", "header_end_anchor") if f in flags), "plain")
     return fparse, feval
 
 
@@ -462,35 +493,77 @@ MODEL_USES = {"unary", "arg", "not", "group", "padded_group", "tight_group", "an
 
 
 # ---------------------------------------------------------------------------------------------------------------
-def run_scenario(sc):
+def gen_text(atoms, sseed, wseed):
+    """Free-form text of the documented grammar: sseed fixes the structure, the atoms used and the quoting,
+    wseed the white space between tokens (so that two texts can differ in exactly one of these respects)."""
+    rng, wrng = random.Random(sseed), random.Random(wseed)
+    uses = set()
+
+    def ws():
+        return wrng.choice([" ", " ", "  ", "\t", "\n", " \n\t"])
+
+    def atom():
+        a = atoms[rng.randrange(len(atoms))]
+        style = rng.choice(["dq", "sq"]) if a.get("quote_anyway") else rng.choice(["bare", "bare", "dq", "sq"])
+        txt = atom_text(a, style, wrng.choice([" ", "  ", "\t"]))
+        uses.add(a["kind"])
+        if a["kind"] != "unary":
+            uses.add("int_arg" if a["op"] == "c" else {"'": "quoted_sq", '"': "quoted_dq"}.get(txt[-1], "bare_arg"))
+            if not a["op"]:
+                uses.add("naked")
+        return txt
+
+    def unary(d):
+        r = rng.random()
+        if r < 0.2:
+            uses.add("not")
+            return "!" + wrng.choice(["", " "]) + unary(d)
+        if r < 0.45 and d < 2:  # deeper nesting: flowfilter.parse needs seconds to minutes (no packrat)
+            uses.update({"group"})
+            pad = rng.random() < 0.6
+            uses.add("padded_group" if pad else "tight_group")
+            return "(" + (ws() if pad else "") + expr(d + 1) + (ws() if pad else "") + ")"
+        return atom()
+
+    def conj(d):
+        parts = [unary(d)]
+        while rng.random() < 0.4 and len(parts) < 3:
+            if rng.random() < (0.35 if d == 0 else 0.08):
+                uses.add("juxtaposition")
+                parts.append(ws() + unary(d))
+            else:
+                uses.add("and")
+                parts.append(ws() + "&" + ws() + unary(d))
+        return "".join(parts)
+
+    def expr(d):
+        parts = [conj(d)]
+        while rng.random() < 0.35 and len(parts) < 3:
+            uses.add("or")
+            parts.append(ws() + "|" + ws() + conj(d))
+        return "".join(parts)
+
+    return wrng.choice(["", "", " "]) + expr(0) + wrng.choice(["", "", " "]), uses
+
+
+def judge_text(text, atoms, sc, toks, uses):
+    """flowfilter.parse(text) and the filter's verdict on every flow of the scenario -> event records."""
     from mitmproxy import flowfilter
 
-    atoms = sc["atoms"]
-    rnd = random.Random(sc["rseed"])
-    if "text" in sc:
-        text, uses = sc["text"], set(sc.get("uses", []))
-    else:
-        text, uses = render([tuple(t) for t in sc["toks"]], atoms, rnd)
-        for t in sc["toks"]:
-            uses |= {"!": {"not"}, "&": {"and"}, "|": {"or"}, "_": {"juxtaposition"},
-                     "(": {"group", "padded_group" if len(t) > 1 and t[1] else "tight_group"}}.get(t[0], set())
-            if t[0] == "a":
-                uses.add(atoms[t[1] - 1]["kind"])
     try:
         tree, flags = ref_parse(text, atoms)
     except RefError as e:  # the harness wrote something outside the documented grammar: its own fault
         raise core.MachineryError(f"reference parser rejects {text!r}: {e}")
     fparse, feval = features(flags)
     specs = (table_specs(atoms) if sc.get("table") else []) + ([POOL[i] for i in sc.get("pool", [])])
+    ev = {"k": "parse", "toks": toks, "ok": True, "ast": tree, "fparse": fparse, "feval": feval,
+          "uses": sorted(uses), "text": text}
     try:
         flt = flowfilter.parse(text)
-        ok = True
-    except ValueError:
-        flt, ok = None, False
-    trace = [{"k": "parse", "toks": sc.get("toks", []), "ok": ok, "ast": tree, "fparse": fparse, "feval": feval,
-              "uses": sorted(uses), "text": text}]
-    if not ok:
-        return trace
+    except Exception as e:  # ValueError is the documented refusal; anything else is logged just the same
+        ev.update(ok=False, exc=type(e).__name__)
+        return [ev]
+    trace = [ev]
     got, facts, kinds = [], [], []
     for r, sp in enumerate(specs):
         row = [holds(a, sp) for a in atoms]
@@ -514,6 +587,37 @@ def run_scenario(sc):
     return trace
 
 
+def _tok_uses(toks, atoms):
+    uses = set()
+    for t in toks:
+        uses |= {"!": {"not"}, "&": {"and"}, "|": {"or"}, "_": {"juxtaposition"},
+                 "(": {"group", "padded_group" if len(t) > 1 and t[1] else "tight_group"}}.get(t[0], set())
+        if t[0] == "a":
+            uses.add(atoms[t[1] - 1]["kind"])
+    return uses
+
+
+def run_scenario(sc):
+    """One process history: a text is parsed and judged; optionally a related text is parsed and judged afterwards."""
+    atoms = sc["atoms"]
+    again = sc.get("again")
+    if "text" in sc:
+        trace = judge_text(sc["text"], atoms, sc, [], set(sc.get("uses", [])))
+        if again and trace[0]["ok"] and trace[-1]["k"] != "raised":
+            trace += judge_text(again["text"], again["atoms"], sc, [], set(sc.get("uses", [])))
+        return trace
+    toks = [tuple(t) for t in sc["toks"]]
+    text, uses = render(toks, atoms, random.Random(sc["rseed"]))
+    trace = judge_text(text, atoms, sc, sc["toks"], uses | _tok_uses(toks, atoms))
+    if again and trace[0]["ok"] and trace[-1]["k"] != "raised":
+        how = again["how"]
+        atoms2 = related_atoms(atoms, how)
+        # respaced: other white space between the tokens; otherwise the very same choices, only the regexes differ
+        text2, uses2 = render(toks, atoms2, random.Random(sc["rseed"] + (1 if how == "respaced" else 0)))
+        trace += judge_text(text2, atoms2, sc, sc["toks"], uses2 | _tok_uses(toks, atoms2))
+    return trace
+
+
 # ---------------------------------------------------------------------------------------------------------------
 class Check(core.PropertyCheck):
     ID = "C42"
@@ -522,8 +626,8 @@ class Check(core.PropertyCheck):
     MON = "Mon_FilterExpr"
     REQUIRED_WITNESSES = ("parse", "verdicts", "some_match", "some_nonmatch", "not", "and", "or", "not_of_group",
                           "and_of_or", "or_of_and", "or_of_not", "and_right_nested", "not_not", "juxtaposition", "group",
-                          "padded_group", "tight_group", "quoted_dq", "quoted_sq", "bare_arg", "int_arg", "naked", "unary")
-    REQUIRED_ACTIONS = ("Atom", "Not", "Open", "And", "Or", "Juxt", "Close", "Finish")
+                          "padded_group", "tight_group", "quoted_dq", "quoted_sq", "bare_arg", "int_arg", "naked", "unary", "parsed_after_another")
+    REQUIRED_ACTIONS = ("Atom", "Not", "Open", "And", "Or", "Juxt", "Close", "Finish", "Reparse")
     ASSUMPTIONS = (
         "the documented grammar is the one in Mon_FilterExpr.tla (precedence ! > & > |, juxtaposition = &, as "
         "docs/src/content/concepts/filters.md words it); texts are generated inside it: whitespace around & and |, "
@@ -533,6 +637,7 @@ class Check(core.PropertyCheck):
         "inside quotes only the backslash before the quote character is an escape; other backslashes belong to the regex",
     )
     PROCS = 6
+    _tabs = False
 
     def mon_constants(self, tier):
         return {}
@@ -540,7 +645,7 @@ class Check(core.PropertyCheck):
     def model_constants(self, tier):
         return {"NAtoms": 3, "AtomKind": ("unary", "arg", "arg"), "MaxAtoms": 3, "MaxDepth": 1 if tier == "quick" else 2,
                 "MaxNeg": 1 if tier == "quick" else 2, "Pads": frozenset({True, False}),
-                "JuxtLowest": True, "JuxtInGroup": False, "UnaryAtRparen": False}
+                "Again": frozenset(AGAIN), "JuxtLowest": True, "JuxtInGroup": False, "UnaryAtRparen": False}
 
     def model_runs(self, ctx):
         # the generator's state graph is a tree (the token sequence is part of the state): the dumped instance holds
@@ -555,9 +660,13 @@ class Check(core.PropertyCheck):
         return [small, big]
 
     @staticmethod
-    def _atoms_for(rng, kinds):
+    def _atoms_for(rng, kinds, twin_for=None):
+        """twin_for: atom numbers used by the text; one of them (of kind arg) gets a regex that has a white-space twin."""
+        slots = [i for i, k in enumerate(kinds) if k == "arg" and twin_for and (i + 1) in twin_for]
         for _ in range(200):
             atoms = [rng.choice([a for a in TABLE_ATOMS if a["kind"] == k]) for k in kinds]
+            if slots:
+                atoms[rng.choice(slots)] = rng.choice(TWIN_ATOMS)
             if compatible(atoms):
                 return atoms
         raise core.MachineryError("no compatible atoms")
@@ -583,8 +692,13 @@ class Check(core.PropertyCheck):
                     dq.append(nxt)
         rng.shuffle(finishes)
         out = []
-        for n, nxt in finishes[:limit]:
+        for k, (n, nxt) in enumerate(finishes[:limit]):
             path = [("Finish", (), nxt)]
+            # every third history goes on: a related text is parsed in the same process (Reparse edges of the graph)
+            more = [e for e in g.succ.get(nxt, []) if e[0] == "Reparse"]
+            if more and k % 3 == 0:
+                nm, ar, n2 = more[(k // 3) % len(more)]
+                path = [(nm, ar, n2)] + path
             cur = n
             while parent[cur] is not None:
                 p, name, args = parent[cur]
@@ -598,16 +712,22 @@ class Check(core.PropertyCheck):
     def _scenario(self, rng, b, kinds, src):
         st = b[-1][2]
         toks = core._jsonable(__import__("vf.tlaval", fromlist=["x"]).to_py(st["toks"]))
-        atoms = self._atoms_for(rng, kinds)
+        again = {"how": str(b[-1][1][0])} if b[-1][0] == "Reparse" else None
+        want_twin = bool(again and again["how"] == "inner_space")
+        atoms = self._atoms_for(rng, kinds, want_twin and {t[1] for t in toks if t[0] == "a"})
         pred = core.predicted_events(b)
         for ev in pred:
             if ev.get("k") == "parse":
                 ev["uses"] = sorted(ev["uses"])
-        return core.Scenario({"atoms": atoms, "toks": toks, "rseed": rng.randrange(1 << 30), "table": True,
-                              "pool": sorted(rng.sample(range(len(POOL)), 4))}, predicted=pred, source=src)
+        data = {"atoms": atoms, "toks": toks, "rseed": rng.randrange(1 << 30), "table": True,
+                "pool": sorted(rng.sample(range(len(POOL)), 4))}
+        if again:
+            data["again"] = again
+        return core.Scenario(data, predicted=pred, source=src)
 
     def scenarios(self, ctx, models):
         rng = random.Random(ctx.seed + 42)
+        self._tabs = not ctx.quick  # literal TABs in quotes (finding F6, entry C42-tab-in-quotes): thorough tier only
         kinds = self.model_constants(ctx.tier)["AtomKind"]
         behs, total = self._complete(models[0].graph, ctx.rng, 500 if ctx.quick else 1412)
         ctx.notes["complete_expressions_in_graph"] = total
@@ -616,10 +736,39 @@ class Check(core.PropertyCheck):
         simc = dict(self.model_constants("thorough"), MaxAtoms=4 if ctx.quick else 5, MaxDepth=2)
         sims, _ = ctx.simulate(self.MODEL, simc, num=250 if ctx.quick else 2500, depth=40, timeout=1200)
         for b in sims:
-            if b[-1][0] == "Finish":
+            if b[-1][0] in ("Finish", "Reparse"):
                 yield self._scenario(rng, b, kinds, "simulate")
+        for sc in self._suite():
+            yield core.Scenario(sc, source="suite")
         for _ in range(200 if ctx.quick else 2500):
             yield core.Scenario(self._random(rng), source="random")
+
+    @staticmethod
+    def _suite():
+        """One directed text per clause antecedent (shape / way of writing), so that no witness depends on the seed."""
+        e, mk = A("e", None, "error", {"error": "boom"}), A("marked", None, "marked", {"marked": ":default:"})
+        mp, ua = A("m", "POST", "method", {"method": "POST"}), A("u", "alpha", "url", {"path": "/x/alpha"})
+        nk, c4 = A("", "alpha", "url", {"path": "/x/alpha"}), A("c", 404, "code", {"code": 404})
+        tw = TWIN_ATOMS[0]
+        texts = [
+            ([e, mk, mp], "~e & ( ~marked & ~m POST )"), ([e, mk], "!!~e | ! ~marked"), ([e, mk, mp], "!( ~e | ~m 'POST' ) ~marked"),
+            ([e, mk, mp], "( ~e | ~marked ) & ~m \"POST\""), ([e, mp, c4], "~e & ~m POST | ~c 404"), ([nk, c4], "alpha (~c 404)"),
+            ([e, ua], "! ( ~u alpha & ~e )"),
+        ]
+        out = [{"atoms": a, "text": t, "uses": [], "rseed": 0, "table": True, "pool": [0, 1, 5, 8]} for a, t in texts]
+        for sc in out:
+            _, flags = ref_parse(sc["text"], sc["atoms"])
+            sc["uses"] = sorted({"group", "padded_group"} if "( " in sc["text"] else set()) + \
+                sorted(u for u, k in (("tight_group", "(~"), ("quoted_sq", "'"), ("quoted_dq", '"'), ("int_arg", "~c"),
+                                      ("bare_arg", "~m POST"), ("naked", "alpha ("), ("juxtaposition", ") ~marked"),
+                                      ("not", "!"), ("and", "&"), ("or", "|"), ("unary", "~e")) if k in sc["text"])
+        for how in AGAIN:
+            a2 = related_atoms([e, tw], how)
+            t1, t2 = (f"~e | {atom_text(x, 'dq')}" for x in (tw, a2[1]))
+            out.append({"atoms": [e, tw], "text": t1, "uses": ["or", "quoted_dq", "unary", "arg"], "rseed": 0, "table": True,
+                        "pool": [0, 1], "again": {"how": how, "text": t2 if how != "respaced" else t1.replace(" | ", "   |  "),
+                                                  "atoms": a2}})
+        return out
 
     # -- random driver: free-form expressions (more atoms, deeper, every operator, dependent atoms, every flow type)
     def _random(self, rng):
@@ -627,7 +776,7 @@ class Check(core.PropertyCheck):
         if table:
             k = rng.randint(2, 4)
             for _ in range(200):
-                src = TABLE_ATOMS + (QUOTED_BACKSLASH if rng.random() < 0.15 else [])
+                src = TABLE_ATOMS + (QUOTED_BACKSLASH if rng.random() < 0.15 else []) + (TAB_QUOTED if self._tabs and rng.random() < 0.1 else [])
                 atoms = [rng.choice(src) for _ in range(k)]
                 if compatible(atoms):
                     break
@@ -643,57 +792,26 @@ class Check(core.PropertyCheck):
         if table and any(sum(1 for x in atoms if x["op"] == a["op"] and x["arg"] == a["arg"]) > 1 for a in atoms):
             atoms = [a for i, a in enumerate(atoms)
                      if not any(x["op"] == a["op"] and x["arg"] == a["arg"] for x in atoms[:i])]
-        quoted_bs = [a for a in atoms if a in QUOTED_BACKSLASH]
-        uses = set()
-
-        def ws():
-            return rng.choice([" ", " ", "  ", "\t", "\n", " \n\t"])
-
-        def atom():
-            i = rng.randrange(len(atoms))
-            a = atoms[i]
-            style = rng.choice(["dq", "sq"]) if a in quoted_bs else rng.choice(["bare", "bare", "dq", "sq"])
-            txt = atom_text(a, style, rng.choice([" ", "  ", "\t"]))
-            uses.add(a["kind"])
-            if a["kind"] != "unary":
-                uses.add("int_arg" if a["op"] == "c" else {"'": "quoted_sq", '"': "quoted_dq"}.get(txt[-1], "bare_arg"))
-                if not a["op"]:
-                    uses.add("naked")
-            return txt
-
-        def unary(d):
-            r = rng.random()
-            if r < 0.2:
-                uses.add("not")
-                return "!" + rng.choice(["", " "]) + unary(d)
-            if r < 0.45 and d < 2:  # deeper nesting: flowfilter.parse needs seconds to minutes (no packrat)
-                uses.update({"group"})
-                pad = rng.random() < 0.6
-                uses.add("padded_group" if pad else "tight_group")
-                return "(" + (ws() if pad else "") + expr(d + 1) + (ws() if pad else "") + ")"
-            return atom()
-
-        def conj(d):
-            parts = [unary(d)]
-            while rng.random() < 0.4 and len(parts) < 3:
-                if rng.random() < (0.35 if d == 0 else 0.08):
-                    uses.add("juxtaposition")
-                    parts.append(ws() + unary(d))
-                else:
-                    uses.add("and")
-                    parts.append(ws() + "&" + ws() + unary(d))
-            return "".join(parts)
-
-        def expr(d):
-            parts = [conj(d)]
-            while rng.random() < 0.35 and len(parts) < 3:
-                uses.add("or")
-                parts.append(ws() + "|" + ws() + conj(d))
-            return "".join(parts)
-
-        text = rng.choice(["", "", " "]) + expr(0) + rng.choice(["", "", " "])
-        return {"atoms": atoms, "text": text, "uses": sorted(uses), "rseed": 0, "table": table,
-                "pool": list(range(len(POOL))) if not table else sorted(rng.sample(range(len(POOL)), 3))}
+        again = None
+        if rng.random() < 0.4:
+            how = rng.choice(AGAIN)
+            if how == "inner_space" and table and not any("twin" in a for a in atoms):
+                for _ in range(50):
+                    cand = list(atoms)
+                    cand[rng.randrange(len(cand))] = rng.choice(TWIN_ATOMS)
+                    if compatible(cand) and len({(a["op"], a["arg"]) for a in cand}) == len(cand):
+                        atoms = cand
+                        break
+            again = how
+        sseed, wseed = rng.randrange(1 << 30), rng.randrange(1 << 30)
+        text, uses = gen_text(atoms, sseed, wseed)
+        sc = {"atoms": atoms, "text": text, "uses": sorted(uses), "rseed": 0, "table": table,
+              "pool": list(range(len(POOL))) if not table else sorted(rng.sample(range(len(POOL)), 3))}
+        if again:
+            atoms2 = related_atoms(atoms, again)
+            text2, _ = gen_text(atoms2, sseed, wseed + 1 if again == "respaced" else wseed)
+            sc["again"] = {"how": again, "text": text2, "atoms": atoms2}
+        return sc
 
     def execute(self, sc):
         return run_scenario(sc)
@@ -704,6 +822,7 @@ class Check(core.PropertyCheck):
             ev = dict(ev)
             if ev["k"] == "parse":
                 ev.pop("text", None)
+                ev.pop("exc", None)
                 ev["uses"] = sorted(u for u in ev["uses"] if u in MODEL_USES)
             elif ev["k"] == "verdicts":
                 n = 2 ** len(ev["facts"][0]) if ev["facts"] else 0   # the table flows come first; pool flows follow
